@@ -58,7 +58,9 @@ FINISH = dict(rule="cases = complete TLC enumeration (one initial state per case
                    "bounded catalogue per family; every case is executed through every applicable API rendering "
                    "(typed: UnmarshalJsonBytes, UnmarshalKey, UnmarshalYamlBytes, conf.LoadFromJsonBytes x 3 spellings, "
                    "conf.LoadFromYamlBytes; text: ParseForm, Parse, ParsePath, ParseHeaders; roundtrip: httpc.Do -> "
-                   "router -> httpx.Parse after a config load; history: conf.Load* first, then UnmarshalJsonBytes, UnmarshalKey, "
+                   "router -> httpx.Parse after a config load; rtopt: the same with every member optional,default=<non-zero> "
+                   "and the client value zero / default / other; deep: all typed APIs and the three conf spellings on "
+                   "[][]T, []map[string]T, map[string][]T, [][]map[string]T, []*T with a null first element; history: conf.Load* first, then UnmarshalJsonBytes, UnmarshalKey, "
                    "UnmarshalYamlBytes, httpx.Parse with a JSON body on keys spelt snake_case / Upper-initial / mixed / "
                    "lowerCamel; twice: every typed API called twice with the same document, the first "
                    "result edited in place and appended to in between) twice in seeded random order; steps = API calls judged")
@@ -79,6 +81,7 @@ L = {"0": 1, "1": 2, "2": 3, "5": 4, "7": 5, "10": 6, "-1": 7, "127": 8, "128": 
      '"010"': 67, '"0100"': 68, '"-010"': 69, '"007"': 70, '"0x1F"': 71, '"0b11"': 72, '"0o17"': 73, '"1_000"': 74}
 # "env_0" (env=V with V=0): on an int64 field it made processFieldWithEnvValue panic (its switch took every Int64
 # for a Duration; "0" is the one unit-less text time.ParseDuration accepts) - repaired in /repo e9e021b.
+L['""'] = 75   # the empty string: only offered where a plan lists it (NLITS stays 74 for "all literals")
 COMBO = ["env_0", "er_m1", "er_1", "er_5", "er_7", "er_300", "eoc_1", "eoc_5", "eo_1", "eo_7", "defz", "defrout", "defoout"]
 NUMK = [k for k in ALLK if k not in ('"bool"', '"string"', '"duration"')]
 ESC = ("hello world", "100%", "a+b", "x&y=z?w#v", "nihao", 'say "hi"')
@@ -110,6 +113,22 @@ def plans(ctx):
     """-> list of (family label, [jobs])"""
     allk, allo, alll = ALLK, Q(ALLO), "1..%d" % NLITS
     out = [("axioms", [job("axioms", "axioms", Q(["int8"]), Q(["req"]), "{4}")])]
+    # round trip of members tagged optional,default=<non-zero>: client value = zero / default / other
+    rto = lits("0", "5", "7", "true", "false", '""', "abc", "xyz")
+    rtk = ["int8", "bool", "string"] if ctx.quick else ["int8", "int64", "bool", "string"]
+    out.append(("rtopt", [job("rtopt", "rtopt", Q(rtk), Q(["req"]), rto, Q(rtk), Q(["req"]), rto)]))
+    # deep shapes.  "sx" ([]T given [5,{..}]: an element that is not an object) is defined in the generator but not
+    # offered: fillSlice asserts ithValue.(map[string]any) unchecked and panics (also for YAML [null,{..}], where
+    # null arrives as "") - reported with /tmp/fixes/C05-6.patch; add "sx" once that fix is in /repo.
+    deep_shapes = Q(["ss", "sm", "ms", "ssm", "sp0", "sx"])
+    # containers of containers of structs with respelt inner keys (conf.Load* must accept them at any depth)
+    if ctx.quick:
+        out.append(("deep", [job("deep", "deep", Q(["int8", "string", "bool"]), Q(["req", "opt", "def"]), lits("5", "300", "abc", "true"),
+                                 kinds2=deep_shapes)]))
+    else:
+        out.append(("deep", [job("deep-%d" % i, "deep", Q(g), Q(["req", "opt", "def", "rcc", "options", "str"]),
+                                 lits("5", "300", "-1", "abc", "true", "1.5", "null", "10s", '""'), kinds2=deep_shapes)
+                             for i, g in enumerate(split_kinds(allk, 3))]))
     # single: all kinds x all option sets x pointer x both source classes (this run is also the model
     # check of the relation); quick leaves out the mid-range boundary literals, thorough offers all 60
     if ctx.quick:
@@ -136,7 +155,7 @@ def plans(ctx):
                                     lits("5", "300", "abc", "1.5"), Q(["int8", "int64", "string", "float32"]),
                                     Q(["req", "opt"]), lits("5", "300", "abc"))]))
         out.append(("roundtrip", [job("roundtrip", "roundtrip", Q(["int8", "uint64", "float32", "string", "bool"]), Q(["req"]),
-                                      lits("5", "300", "1.5", "abc", "true", "2^64-1", *ESC),
+                                      lits("5", "300", "1.5", "abc", "true", "2^64-1", "hello world", "100%", "nihao"),
                                       Q(["int8", "string"]), Q(["req"]), lits("5", "abc", "a b&c=d", "hello world", "100%", "nihao"))]))
         out.append(("twice", [job("twice-%d" % i, "twice", Q(g), Q(["req"]), lits("5", "300", "abc", "1.5", "true"),
                                   litidx2=lits("5", "300", "abc", "xyz", "1.5", "true", '"010"'))
@@ -217,7 +236,7 @@ def run(ctx):
         path, n = ctx.write_cases(fam + ".ndjson", cases)
         total[fam] = n
         ctx.samples += core.sample_of(cases, 1)
-        shards = 1 if fam == "axioms" else 4 if fam == "roundtrip" else 8
+        shards = 1 if fam == "axioms" else 4 if fam in ("roundtrip", "rtopt") else 8
         cnt, bad = ctx.replay(PKG, OVERLAY, RUN, path, label=fam, shards=shards, binp=binp, timeout=1200)
         # vacuity guard of the driver: each family must have seen accepted and rejected documents
         vals = sum(v for k, v in cnt.items() if k.startswith("call.") and k.endswith(".val"))
@@ -226,7 +245,7 @@ def run(ctx):
             if cnt.get("axioms.checked", 0) < 1:
                 raise core.Infra("the specification's numeric axioms were not checked")
             continue
-        if not bad and (vals == 0 or (errs == 0 and fam != "roundtrip")):
+        if not bad and (vals == 0 or (errs == 0 and fam not in ("roundtrip", "rtopt"))):
             raise core.Infra("family %s: vacuous replay (accepted=%d rejected=%d)" % (fam, vals, errs))
     ctx.notes["cases_per_family"] = total
     # report the simplest member of each class of disagreement first (finish() shows the first per key)
